@@ -25,7 +25,7 @@ func prepareOnly(src string) (err error, panicked interface{}) {
 }
 
 func checkC13(c *Check) {
-	c.rule = "MC_Reject: 57 invalid fragments (unterminated string / regexp / block / parameter list / switch / array / hash / index / call / group, illegal regexp flag in lower and upper case, missing operands, assignment and compound assignment to a non-variable, local outside a function, nested ternaries, illegal characters, malformed foreach and function headers, stray closing brace) x 19 expression contexts (assignment, both ternary arms, call arguments, array element, hash value, index, return value, bracketed operand, if condition, case expression) x chains of 14 statement contexts (top level, if, else, else-if, while, foreach, function, switch case, switch default, between statements, after a complete function definition, after a return in a block / in a function, after nested blocks) nested to depth 2 (thorough: 3, every triple); each with its repaired sibling which must be ACCEPTED; plus every truncation of 4 valid programs at a token boundary where a bracket is open; TLC checks on the model that siblings and whole programs are bracket-balanced and the unbalanced fragments and truncations are not; distinct = distinct script text"
+	c.rule = "MC_Reject: 62 invalid fragments (unterminated string / regexp / block / parameter list / switch / array / hash / index / call / group, illegal regexp flag in lower and upper case, missing operands, assignment and compound assignment to a non-variable, local outside a function, nested ternaries, illegal characters, malformed foreach and function headers, stray closing brace) x 19 expression contexts (assignment, both ternary arms, call arguments, array element, hash value, index, return value, bracketed operand, if condition, case expression) x chains of 14 statement contexts (top level, if, else, else-if, while, foreach, function, switch case, switch default, between statements, after a complete function definition, after a return in a block / in a function, after nested blocks) nested to depth 2 (thorough: 3, every triple); each with its repaired sibling which must be ACCEPTED; plus every truncation of 4 valid programs at a token boundary where a bracket is open; TLC checks on the model that siblings and whole programs are bracket-balanced and the unbalanced fragments and truncations are not; distinct = distinct script text"
 	c.assumptions = []string{"a ternary is not placed inside a ternary arm except as the nested-ternary fragment itself", "local is valid anywhere inside a function body"}
 	type rejRow struct {
 		K          string   `json:"k"`
